@@ -30,7 +30,10 @@ func hookPoints(files map[string]string) int {
 
 func write(f map[string]string) Ev         { return Ev{Kind: "write", Files: f} }
 func crash(f map[string]string, at int) Ev { return Ev{Kind: "crash", Files: f, CrashAt: at} }
-func restart() Ev                          { return Ev{Kind: "restart"} }
+func kill(f map[string]string, at int) Ev {
+	return Ev{Kind: "crash", Files: f, CrashAt: at, Kill: true}
+}
+func restart() Ev { return Ev{Kind: "restart"} }
 func mk(fam, base string, evs ...Ev) Case {
 	return Case{Family: fam, Base: base, TName: "certs", Events: evs}
 }
@@ -97,6 +100,53 @@ func generate(tier string, search bool, rng *lib.Rand) []Case {
 				cs = append(cs, mk("crash2", "b", evs...))
 			}
 		}
+	}
+
+	// (B') the same with REAL process death (child process SIGKILLs itself at the hook): every hook
+	// point of every Write in histories of 1..2 Writes (thorough/search: 1..3, all rotations);
+	// the Writes before the killed one run in the same child (same Dir: prev is set), recovery and
+	// one more Write in-process by a fresh Dir
+	killN, killRots := 2, 2
+	if tier == "thorough" || search {
+		killN, killRots = 3, len(p)
+	}
+	for n := 1; n <= killN; n++ {
+		for r := 0; r < killRots; r++ {
+			for i := 0; i < n; i++ {
+				fi := pick(p, off+r+i)
+				for at := 0; at < hookPoints(fi)-1; at++ {
+					var evs []Ev
+					for j := 0; j < i; j++ {
+						evs = append(evs, write(pick(p, off+r+j)))
+					}
+					evs = append(evs, kill(fi, at))
+					for j := i + 1; j < n; j++ {
+						evs = append(evs, write(pick(p, off+r+j)))
+					}
+					evs = append(evs, write(pick(p, off+r+n)))
+					cs = append(cs, mk("kill1", bases[(n+i+at)%len(bases)], evs...))
+				}
+			}
+		}
+	}
+	// double real death: kill(p) kill(q) W
+	{
+		f1, f2 := pick(p, off+1), pick(p, off+3)
+		stepA, stepB := 1, 1
+		if tier == "quick" && !search {
+			stepA, stepB = 2, 2
+		}
+		for a := 0; a < hookPoints(f1)-1; a += stepA {
+			for b := 0; b < hookPoints(f2)-1; b += stepB {
+				cs = append(cs, mk("kill2", "b", kill(f1, a), kill(f2, b), write(pick(p, off+4))))
+			}
+		}
+	}
+	// real death with a relative target
+	{
+		c := mk("kill-reltarget", "a", write(p[1]), kill(p[4], 6), write(p[0]))
+		c.RelTgt = true
+		cs = append(cs, c)
 	}
 
 	// (D) clean restarts (fresh Dir without a crash): model comparison; leftovers are counted, the
